@@ -28,8 +28,10 @@ func (a Atom) TrueSucc() int {
 }
 
 // AtomOf normalises the condition of an If.
-func AtomOf(i *ssa.If) Atom {
-	a := Atom{If: i, X: i.Cond}
+func AtomOf(i *ssa.If) Atom { return atomOfCond(i, i.Cond) }
+
+func atomOfCond(i *ssa.If, cond ssa.Value) Atom {
+	a := Atom{If: i, X: cond}
 	for {
 		switch x := a.X.(type) {
 		case *ssa.UnOp:
@@ -160,7 +162,7 @@ func (g Gate) in(h *ssa.Function) Gate {
 // helperOf: the repository function with a body that produced value v as its
 // result #idx (idx<0: last) on every origin; nil when origins differ.
 func helperOf(v ssa.Value, idx int, self *ssa.Function) (*ssa.Function, *ssa.Call) {
-	vals, unknown := Origins(v)
+	vals, unknown := OriginsNoExpand(v)
 	if unknown || len(vals) == 0 {
 		return nil, nil
 	}
@@ -216,7 +218,9 @@ func (g Gate) enforcesErr(h *ssa.Function, site *ssa.Call) bool {
 	for e := range ErrorExitEdges(h) {
 		edges[e] = true
 	}
-	r := Reach(h, ReachOpts{Removed: edges})
+	via := gg.PassEdgesVia(h)
+	nSites += len(via)
+	r := Reach(h, ReachOpts{Removed: edges, RemovedVia: via})
 	for _, s := range sinks {
 		if ret, ok := s.(*ssa.Return); ok && gg.IsVerdict != nil {
 			if ei := ErrIndex(h); ei < len(ret.Results) && gg.IsVerdict(ret.Results[ei]) {
@@ -291,7 +295,7 @@ func (g Gate) enforcesBool(h *ssa.Function, ri0 int) (bool, bool) {
 	if len(sites) == 0 {
 		return false, false
 	}
-	r := Reach(h, ReachOpts{Removed: edges})
+	r := Reach(h, ReachOpts{Removed: edges, RemovedVia: gg.PassEdgesVia(h)})
 	for _, val := range []bool{true, false} {
 		n, bypass := 0, false
 		for _, ri := range rets {
@@ -363,6 +367,78 @@ func (g Gate) viaHelper(a Atom, self *ssa.Function) (bool, bool) {
 	return false, false
 }
 
+// ImpliedBy: the boolean value v having the given truth implies that g's check
+// passed (v is g's tested value, or a flag `x && y` / `x || y` one of whose
+// operands is).
+func (g Gate) ImpliedBy(v ssa.Value, truth bool, fn *ssa.Function) bool {
+	return g.impliedBy(v, truth, fn, 0)
+}
+
+func (g Gate) impliedBy(v ssa.Value, truth bool, fn *ssa.Function, depth int) bool {
+	if depth > 3 {
+		return false
+	}
+	a := AtomOfValue(v)
+	m, pwt := g.Match(a)
+	if !m {
+		m, pwt = g.viaHelper(a, fn)
+	}
+	if m {
+		return (truth != a.Neg) == pwt
+	}
+	u, neg := stripBool(v)
+	phi, ok := u.(*ssa.Phi)
+	if !ok || !isBoolType(phi.Type()) {
+		return false
+	}
+	pt := truth != neg // truth of the phi itself
+	// `x && y` (constants false) being true: every operand is true — one implying g is enough;
+	// `x || y` (constants true) being false: every operand is false — likewise
+	var c, have bool
+	var ops []ssa.Value
+	for _, e := range phi.Edges {
+		if b, isC := BoolConst(e); isC {
+			if have && b != c {
+				return false
+			}
+			c, have = b, true
+		} else {
+			ops = append(ops, e)
+		}
+	}
+	if !have || pt == c {
+		return false
+	}
+	// control came through one of the non-constant operands: each of them must imply g…
+	all := len(ops) > 0
+	for _, op := range ops {
+		if !g.impliedBy(op, pt, fn, depth+1) {
+			all = false
+		}
+	}
+	if all {
+		return true
+	}
+	// …or a short-circuit branch on the way to every non-constant operand does: the
+	// constant edges are the ones that skipped the rest, so reaching an operand's block
+	// means the earlier conjuncts had truth pt
+	edges, _ := g.PassEdges(fn)
+	if len(edges) == 0 {
+		return false
+	}
+	r := Reach(fn, ReachOpts{Removed: edges})
+	for i, e := range phi.Edges {
+		if _, isC := BoolConst(e); isC {
+			continue
+		}
+		pr := phi.Block().Preds[i]
+		if len(pr.Instrs) > 0 && r.Reachable(pr.Instrs[len(pr.Instrs)-1]) {
+			return false
+		}
+	}
+	return true
+}
+
 // PassEdges returns the pass edges of g in fn and the number of Ifs matched.
 func (g Gate) PassEdges(fn *ssa.Function) (edges map[Edge]bool, sites []*ssa.If) {
 	edges = map[Edge]bool{}
@@ -380,6 +456,26 @@ func (g Gate) PassEdges(fn *ssa.Function) (edges map[Edge]bool, sites []*ssa.If)
 			m, pwt = g.viaHelper(a, fn)
 		}
 		if !m {
+			// flag variable: `bad := x || y; if bad {…}` — on the side where the phi differs
+			// from its constant operands every other operand has that truth
+			if ops, succ, truth, ok := PhiImplied(i); ok {
+				all := true
+				for _, op := range ops {
+					aw := AtomOfValue(op)
+					mw, pw := g.Match(aw)
+					if !mw {
+						mw, pw = g.viaHelper(aw, fn)
+					}
+					if !mw || (truth != aw.Neg) != pw {
+						all = false
+						break
+					}
+				}
+				if all {
+					sites = append(sites, i)
+					edges[Edge{b, succ}] = true
+				}
+			}
 			continue
 		}
 		sites = append(sites, i)
@@ -563,6 +659,8 @@ func GCmp(name string, f func(a Atom) (bool, bool)) Gate { return Gate{Name: nam
 
 type ReachOpts struct {
 	Removed map[Edge]bool
+	// RemovedVia: conditional removed edges (flag variables; see ViaEdges).
+	RemovedVia ViaEdges
 	// Cut: reaching this instruction ends the path (the instruction itself is
 	// reached, nothing after it).
 	Cut func(ssa.Instruction) bool
@@ -601,6 +699,13 @@ func Reach(fn *ssa.Function, o ReachOpts) *ReachResult {
 			}
 		}
 		return len(b.Instrs)
+	}
+	if fs := flagsOf(fn); len(fs.vals) > 0 && !NoFlagSensitivity {
+		if reachFlags(fn, o, fs, r, cutIdx) {
+			return r
+		}
+		// state cap exceeded: fall back to the plain CFG
+		r = &ReachResult{fn: fn, blockIn: map[*ssa.BasicBlock]bool{}, upto: map[*ssa.BasicBlock]int{}, pred: map[*ssa.BasicBlock]*ssa.BasicBlock{}}
 	}
 	var work []*ssa.BasicBlock
 	pushSuccs := func(b *ssa.BasicBlock, complete bool) {
@@ -1138,8 +1243,9 @@ func CheckGate(p *Prog, fn *ssa.Function, g Gate, sinks []ssa.Instruction) GateR
 	for e := range ErrorExitEdges(fn) {
 		edges[e] = true
 	}
-	r := Reach(fn, ReachOpts{Removed: edges})
-	res := GateResult{Gate: g.Name, Sites: len(sites), Witness: map[ssa.Instruction]string{}, SinkCount: len(sinks)}
+	via := g.PassEdgesVia(fn)
+	r := Reach(fn, ReachOpts{Removed: edges, RemovedVia: via})
+	res := GateResult{Gate: g.Name, Sites: len(sites) + len(via), Witness: map[ssa.Instruction]string{}, SinkCount: len(sinks)}
 	for _, s := range sinks {
 		if ret, ok := s.(*ssa.Return); ok && g.IsVerdict != nil {
 			if ei := ErrIndex(fn); ei >= 0 && ei < len(ret.Results) && g.IsVerdict(ret.Results[ei]) {
@@ -1377,7 +1483,9 @@ func MustPass(fn *ssa.Function, from ssa.Instruction, cut func(ssa.Instruction) 
 // CutAtCall builds a cut predicate for calls matching m; a `defer` of a
 // matching call (or of a closure that contains a matching call) also cuts,
 // because once registered the call runs at every exit.
-func CutAtCall(m CallMatcher) func(ssa.Instruction) bool {
+func CutAtCall(m CallMatcher) func(ssa.Instruction) bool { return cutAtCallX(m, 0) }
+
+func cutAtCallPlain(m CallMatcher) func(ssa.Instruction) bool {
 	return func(in ssa.Instruction) bool {
 		switch x := in.(type) {
 		case *ssa.Call:
@@ -1393,6 +1501,56 @@ func CutAtCall(m CallMatcher) func(ssa.Instruction) bool {
 			}
 		}
 		return false
+	}
+}
+
+// MustCall: every path through h from entry to a return passes a call matching
+// m (directly or, to a bounded depth, inside further new helpers).
+func MustCall(h *ssa.Function, m CallMatcher) bool { return mustCall(h, m, 0) }
+
+func mustCall(h *ssa.Function, m CallMatcher, depth int) bool {
+	if h == nil || h.Blocks == nil || depth > 2 {
+		return false
+	}
+	cut := cutAtCallX(m, depth+1)
+	r := Reach(h, ReachOpts{Cut: cut})
+	n := 0
+	for _, ri := range Returns(h) {
+		if ri.Block() == h.Recover {
+			continue
+		}
+		n++
+		if r.Reachable(ri) {
+			return false
+		}
+	}
+	return n > 0
+}
+
+// CutAtCallX is CutAtCall that also cuts at the call of a function new since
+// the anchor snapshot in which a matching call is made on every path.
+func CutAtCallX(m CallMatcher) func(ssa.Instruction) bool { return cutAtCallX(m, 0) }
+
+func cutAtCallX(m CallMatcher, depth int) func(ssa.Instruction) bool {
+	plain := cutAtCallPlain(m)
+	return func(in ssa.Instruction) bool {
+		if plain(in) {
+			return true
+		}
+		var cc *ssa.CallCommon
+		switch x := in.(type) {
+		case *ssa.Call:
+			cc = &x.Call
+		case *ssa.Defer:
+			cc = &x.Call
+		default:
+			return false
+		}
+		h := CalleeFunc(cc)
+		if h == nil || h.Blocks == nil || !IsRepoFunc(h) || !IsNewFunc(h) {
+			return false
+		}
+		return mustCall(h, m, depth)
 	}
 }
 
@@ -1426,6 +1584,7 @@ func (c *Ctx) RequireAnyGate(rule string, fn *ssa.Function, gates []Gate, minSit
 		removed[e] = true
 	}
 	var allSites []*ssa.If
+	via := ViaEdges{}
 	// a helper may enforce the DISJUNCTION (`if x != nil && !equal(x, y) { return err }` moved
 	// into a function) without enforcing any single disjunct: summarise the disjunction too
 	var orSites []*ssa.If
@@ -1471,6 +1630,21 @@ func (c *Ctx) RequireAnyGate(rule string, fn *ssa.Function, gates []Gate, minSit
 	for i, g := range gates {
 		names = append(names, g.Name)
 		edges, sites := g.PassEdges(fn)
+		gv := g.PassEdgesVia(fn)
+		via.add(gv)
+		for e := range gv {
+			if iff, ok := e.From.Instrs[len(e.From.Instrs)-1].(*ssa.If); ok {
+				dup := false
+				for _, s := range sites {
+					if s == iff {
+						dup = true
+					}
+				}
+				if !dup {
+					sites = append(sites, iff)
+				}
+			}
+		}
 		min := 1
 		if i < len(minSites) && minSites[i] > 0 {
 			min = minSites[i]
@@ -1562,7 +1736,7 @@ func (c *Ctx) RequireAnyGate(rule string, fn *ssa.Function, gates []Gate, minSit
 					starts = append(starts, s)
 				}
 			}
-			r := Reach(fn, ReachOpts{Removed: removed, Starts: starts})
+			r := Reach(fn, ReachOpts{Removed: removed, RemovedVia: via, Starts: starts})
 			hdr := common.Header.Instrs[0]
 			if r.Reachable(hdr) {
 				c.Violate(rule, construct, c.P.Pos(instrPos(hdr)), fmt.Sprintf("in %s the loop at %s can proceed to its next iteration (element accepted) without crossing the pass edge of (%s); witness %s", FuncName(fn), c.P.Pos(instrPos(hdr)), strings.Join(names, " ∨ "), r.Path(c.P, hdr)))
@@ -1604,7 +1778,7 @@ func (c *Ctx) RequireAnyGate(rule string, fn *ssa.Function, gates []Gate, minSit
 		c.Violate(rule, construct, c.P.Pos(fn.Pos()), "no sink of kind '"+sinkDesc+"' found")
 		return false
 	}
-	r := Reach(fn, ReachOpts{Removed: removed})
+	r := Reach(fn, ReachOpts{Removed: removed, RemovedVia: via})
 	for _, s := range useSinks {
 		if r.Reachable(s) {
 			if gatedInsideHelper(s, gates, 0) {
